@@ -389,7 +389,7 @@ package node_manager
 // Blacklisting: a validator's witness and two thirds of the validators; only while at least MIN_PEER_NUM active
 // members remain after removing as many as are listed; exactly the listed entries change, to the black status,
 // and each gets a blacklist record; an epoch change follows when a consensus member was hit.
-//@ spec blackKey(pubkey string) KeyT = K2(utils.NodeManagerContractAddress, "blackList", hexDecode(pubkey))
+//@ spec nmBlackKey(pubkey string) KeyT = K2(utils.NodeManagerContractAddress, "blackList", hexDecode(pubkey))
 //@ func BlackNode
 //@   property C18, C32, C34
 //@   mode abstract
@@ -404,7 +404,7 @@ package node_manager
 //@   callsite[c32-separation] CheckConsensusSigns#1 requires arg1 == "blackNode" && arg3 == params.Address
 //@   ensures[c18-witness] Store != old(Store) ==> wit
 //@   -- without the approval of two thirds only the approval record itself changes
-//@   ensures[c32-approved] !fired ==> (forall k string :: Store[blackKey(k)] == old(Store)[blackKey(k)]) && (forall v uint32 :: Store[poolKey(v)] == old(Store)[poolKey(v)]) && Store[viewKey()] == old(Store)[viewKey()]
+//@   ensures[c32-approved] !fired ==> (forall k string :: Store[nmBlackKey(k)] == old(Store)[nmBlackKey(k)]) && (forall v uint32 :: Store[poolKey(v)] == old(Store)[poolKey(v)]) && Store[viewKey()] == old(Store)[viewKey()]
 //@   snapshot s0 before loop 1
 //@   set before "if peerPoolItem.Status == CandidateStatus || peerPoolItem.Status == ConsensusStatus" : gact := gact + ite(isActive(peerPoolItem.Status), 1, 0)
 //@   loop 1 invariant num == gact && 0 <= num && num <= it1
@@ -433,4 +433,4 @@ package node_manager
 //@   callsite[c18-owner] ValidateOwner#1 requires arg1 == params.Address
 //@   callsite[c32-separation] CheckConsensusSigns#1 requires arg1 == "whiteNode" && bytes(arg2) == bytes(params.PeerPubkey) && arg3 == params.Address
 //@   ensures[c18-witness] Store != old(Store) ==> wit
-//@   ensures[c32-approved] !fired ==> forall k string :: Store[blackKey(k)] == old(Store)[blackKey(k)]
+//@   ensures[c32-approved] !fired ==> forall k string :: Store[nmBlackKey(k)] == old(Store)[nmBlackKey(k)]
